@@ -806,7 +806,17 @@ static void cmpWlists(const Schedule& A, const Schedule& B, size_t k, Diff& d) {
         if (wa.hasList(l)) for (const auto& w : wa.getList(l).wells()) sa += w + " ";
         if (wb.hasList(l)) for (const auto& w : wb.getList(l).wells()) sb += w + " ";
         if (!sa.empty()) d.feat["wlist:non-empty list"]++;
-        d.str("wlist.wells", sa, sb);
+        // Known defect of the ORIGINAL's bookkeeping: WListManager keeps, per well, the names of its lists in fixed slots plus a
+        // counter; a well that leaves a list and joins it again is not counted again, and the next time it leaves, the counter
+        // reaches zero and ALL its slots are cleared although it still is a member of other lists.  The restart writer goes by the
+        // per-well slots.  That situation (a member of the list whose own slots do not name the list) gets its own key.
+        bool slotsLost = false;
+        if (wa.hasList(l)) for (const auto& w : wa.getList(l).wells()) {
+            bool named = false;
+            if (wa.hasWList(w)) for (const auto& n : wa.getWListNames(w)) if (n == l) named = true;
+            if (!named) slotsLost = true;
+        }
+        d.str(slotsLost ? "wlist.wells:member-whose-own-slots-lost-the-list" : "wlist.wells", sa, sb);
     }
 }
 
